@@ -295,7 +295,7 @@ def lazyExpr (cfg : Cfg) (fuel ef : Nat) (env : Env) (e : Expr) : LM LVal :=
     pure (.set out)
   | .capture name q _ _ _ =>
     match q with
-    | .zero => panicAt "from_nodes:unreachable"
+    | .zero => throwK .undefinedCapture   -- not resolved by the checker (shorthand bodies); repaired: was unreachable!()
     | _ =>
       match env.quants.lookup name with
       | some q' => do
@@ -438,7 +438,7 @@ def lazyStmt (cfg : Cfg) (fuel ef : Nat) (env : Env) (st : Stmt) : LM Unit := do
     | some a => do
       match env.mat.nodes fullMatchName with
       | m :: _ => Strict.addDebugNodeAttr n a (.syn m)
-      | [] => panicAt "missing full capture"
+      | [] => throwK .undefinedCapture
     | none => pure ()
     varAddL cfg fuel ef env v (.value (.gnode n)) false
   | .attrNode ne attrs _ => do
@@ -549,7 +549,7 @@ def execMatchL (cfg : Cfg) (fuel ef : Nat) (st : Stanza) (m : QMatch) : LM Unit 
   modifyR fun s => { s with locals := s.locals.clear }
   let env0 : Env := { caps := [], mat := m, quants := st.captures, ctx := default }
   match m.nodes fullMatchName with
-  | [] => panicAt "missing full capture"
+  | [] => throwK .undefinedCapture
   | node :: _ =>
     match cfg.tree.node? node with
     | none => panicAt "tree:node"
